@@ -264,6 +264,87 @@ fn history_case(rng: &mut Rng, rec: &mut Rec) {
     }
 }
 
+/// Requests that the analysis must refuse (and some it accepts): whatever the first write says,
+/// the readiness query must agree with advancing and nothing may panic.
+fn rejected_case(idx: u64, rec: &mut Rec) {
+    use super::c17::{build, CLS, HOSTS, TES, VERS};
+    let mut x = idx as usize;
+    let mut take = |n: usize| {
+        let v = x % n;
+        x /= n;
+        v
+    };
+    let ver = VERS[take(5)];
+    let method = METHODS[take(9)];
+    let host = HOSTS[take(5)];
+    let cl = CLS[take(9)];
+    let te = TES[take(4)];
+    let despite = take(2) == 1;
+    let writes = take(3);
+    let cfg = build(ver, method, host, cl, te, despite);
+    let flow = match build_flow(&cfg) {
+        Ok(f) => f,
+        Err(_) => return,
+    };
+    let mut f = flow.proceed();
+    let mut outcomes = vec![];
+    for _ in 0..writes {
+        let mut buf = vec![0u8; 4096];
+        rec.call();
+        let r = guarded(|| f.write(&mut buf));
+        match r {
+            Err((loc, msg)) => return rec.fail(&format!("C09/{}-in-SendRequest", panic_sig(&loc, &msg)), format!("{}: write panicked: {} at {}", cfg.describe(), msg, loc)),
+            Ok(r) => outcomes.push(r.is_ok()),
+        }
+    }
+    rec.ev(|| format!("{} writes={:?}", cfg.describe(), outcomes));
+    let body = b"x".repeat(cfg.declared_len().unwrap_or(0).min(16) as usize);
+    let res = guarded(move || {
+        let ready = f.can_proceed();
+        match f.proceed() {
+            Ok(Some(next)) => {
+                // a flow that advanced is usable in its new state
+                match next {
+                    SendRequestResult::Await100(a) => {
+                        let _ = a.can_keep_await_100();
+                        let _ = a.proceed();
+                    }
+                    SendRequestResult::SendBody(mut s) => {
+                        let mut out = [0u8; 64];
+                        let _ = s.write(&body, &mut out);
+                        let _ = s.write(&[], &mut out);
+                        let _ = s.can_proceed();
+                        let _ = s.proceed();
+                    }
+                    SendRequestResult::RecvResponse(mut r) => {
+                        let _ = r.try_response(b"HTTP/1.1 200 OK\r\nContent-Length: 0\r\n\r\n");
+                        let _ = r.proceed();
+                    }
+                }
+                (ready, true)
+            }
+            Ok(None) => (ready, false),
+            Err(_) => (ready, false),
+        }
+    });
+    rec.call();
+    match res {
+        Err((loc, msg)) => rec.fail(
+            &format!("C09/{}-in-SendRequest", panic_sig(&loc, &msg)),
+            format!("{} after {} write(s) {:?}: advancing panicked: {} at {}", cfg.describe(), writes, outcomes, msg, loc),
+        ),
+        Ok((ready, advanced)) => {
+            rec.cov(&format!("rejected-menu/writes={}/{}", writes, if advanced { "advanced" } else { "refused" }));
+            if ready != advanced {
+                rec.fail(
+                    "C09/readiness-disagrees-in-SendRequest",
+                    format!("{} after {} write(s) {:?}: can_proceed() = {} but proceed() {}", cfg.describe(), writes, outcomes, ready, if advanced { "succeeded" } else { "did not" }),
+                );
+            }
+        }
+    }
+}
+
 impl Property for P {
     fn id(&self) -> &'static str {
         "C09"
@@ -278,9 +359,15 @@ impl Property for P {
         ]
     }
     fn workloads(&self, tier: Tier) -> Vec<Workload> {
-        vec![Workload::new("histories", tier.pick(6_000, 1_500_000), false, "random exchange histories + advance probes at every step")]
+        vec![
+            Workload::new("histories", tier.pick(6_000, 1_500_000), false, "random exchange histories + advance probes at every step"),
+            Workload::new("request-menu", 5 * 9 * 5 * 9 * 4 * 2 * 3, true, "every request shape of the C17 product (valid and invalid) x 0/1/2 head writes, then an advance attempt"),
+        ]
     }
     fn run_case(&self, wl: &str, idx: u64, seed: u64, rec: &mut Rec) {
+        if wl == "request-menu" {
+            return rejected_case(idx, rec);
+        }
         let mut rng = Rng::derive(seed, wl, idx);
         history_case(&mut rng, rec)
     }
@@ -299,6 +386,10 @@ impl Property for P {
         v.push(("probe/Await100/advanced".into(), 20));
         v.push(("edge-config/SendRequest->SendBody/despite-body".into(), 5));
         v.push(("hook:flow:Await100:WithBody".into(), 10));
+        v.push(("rejected-menu/writes=0/refused".into(), 100));
+        v.push(("rejected-menu/writes=1/refused".into(), 100));
+        v.push(("rejected-menu/writes=1/advanced".into(), 100));
+        v.push(("rejected-menu/writes=2/advanced".into(), 100));
         v
     }
 }
